@@ -13,10 +13,14 @@ import (
 
 	"pgregory.net/rapid"
 
+	"github.com/cossacklabs/acra/acrablock"
 	"github.com/cossacklabs/acra/cmd/acra-translator/common"
 	"github.com/cossacklabs/acra/crypto"
 	"github.com/cossacklabs/acra/decryptor/base"
+	encryptor "github.com/cossacklabs/acra/encryptor/base"
+	"github.com/cossacklabs/acra/encryptor/base/config"
 	"github.com/cossacklabs/acra/keystore"
+	"github.com/cossacklabs/acra/masking"
 	"github.com/cossacklabs/acra/poison"
 
 	"verif/internal/fix"
@@ -84,6 +88,7 @@ type env struct {
 	// (keystore defects found by property C06); such cases are excluded and counted.
 	diverged string
 	dir      string
+	format   string
 }
 
 func (e *env) close() {
@@ -101,7 +106,7 @@ var (
 // build creates the keystore, the ordinary clients and the poison-key history.
 func build(h Hist) (e *env, err error) {
 	fix.TheWorld() // registry of envelope handlers (process-global) and the keystore of "somebody else"
-	e = &env{recs: map[string][][]byte{}, alive: map[string][]bool{}}
+	e = &env{recs: map[string][][]byte{}, alive: map[string][]bool{}, format: h.Format}
 	defer func() {
 		if p := recover(); p != nil {
 			e.close()
@@ -410,6 +415,7 @@ type rendered struct {
 	anyRecords [][]byte
 	classes    []string
 	firstAt    int // offset of the first live record (-1 if none)
+	liveAt     [][3]int // offset, length and form (1 = container) of every live record
 	rotated    bool
 }
 
@@ -479,7 +485,7 @@ func (e *env) render(ps []Piece) (r rendered, err error) {
 					genClass = "rotated"
 					r.rotated = true
 				}
-				r.classes = append(r.classes, "poison:"+kind+"/"+form+"/"+genClass)
+				r.classes = append(r.classes, "poison:"+kind+"/"+form+"/"+genClass, "poison:"+kind+"/"+genClass+"/"+e.format)
 			}
 			marks = append(marks, placed{len(r.col), b, form == fix.FormContainer, live})
 			if p.Damage == nil {
@@ -511,6 +517,11 @@ func (e *env) render(ps []Piece) (r rendered, err error) {
 		if r.firstAt < 0 {
 			r.firstAt = m.at
 		}
+		isContainer := 0
+		if m.container {
+			isContainer = 1
+		}
+		r.liveAt = append(r.liveAt, [3]int{m.at, len(m.b), isContainer})
 		if m.container {
 			r.liveContainers = append(r.liveContainers, m.b)
 		} else {
@@ -537,6 +548,58 @@ func holdsContainer(b []byte) bool {
 		}
 	}
 	return false
+}
+
+// shapeAt: b starts with bytes shaped like an envelope (serialized container header with a declared length
+// inside the value and a known envelope id, or a bare AcraStruct / AcraBlock header); n is the length it claims.
+func shapeAt(b []byte) (n int, ok bool) {
+	if len(b) > 12 && b[0] == '%' && b[1] == '%' && b[2] == '%' && (b[11] == crypto.AcraStructEnvelopeID || b[11] == crypto.AcraBlockEnvelopeID) {
+		if ln := binary.LittleEndian.Uint64(b[3:11]); ln >= 12 && ln <= uint64(len(b)) {
+			return int(ln), true
+		}
+	}
+	if len(b) >= 145 && bytes.HasPrefix(b, []byte(`""""""""`)) {
+		if dl := binary.LittleEndian.Uint64(b[137:145]); dl <= uint64(len(b)-145) {
+			return 145 + int(dl), true
+		}
+	}
+	if len(b) >= 18 && bytes.HasPrefix(b, []byte(`""""`)) {
+		if n, _, err := acrablock.ExtractAcraBlockFromData(b); err == nil {
+			return n, true
+		}
+	}
+	return 0, false
+}
+
+// everyRecordOverlapped: every live record of the value is reached into by envelope-shaped bytes that start
+// in front of it. In a masked column the masking processor replaces such an undecryptable "envelope" by the
+// pattern and the scan goes on behind its claimed length, i.e. inside the record (known finding).
+func everyRecordOverlapped(r rendered) bool {
+	// the records the expectation rests on: the container-form ones, or (value without any container) the bare ones
+	var recs [][3]int
+	for _, rec := range r.liveAt {
+		if rec[2] == 1 {
+			recs = append(recs, rec)
+		}
+	}
+	if len(recs) == 0 {
+		recs = r.liveAt
+	}
+	if len(recs) == 0 {
+		return false
+	}
+	for _, rec := range recs {
+		hit := false
+		for i := 0; i < rec[0] && !hit; i++ {
+			if n, ok := shapeAt(r.col[i:]); ok && i+n > rec[0] {
+				hit = true
+			}
+		}
+		if !hit {
+			return false
+		}
+	}
+	return true
 }
 
 // Expectation for a value handed to a scanning entry point.
@@ -577,6 +640,49 @@ func failing() (base.PoisonRecordCallbackStorage, *failingCallback) {
 	cb := &failingCallback{}
 	st.AddCallback(cb)
 	return st, cb
+}
+
+// addKnown records a violation of a class that is a known finding; with VERIF_ASSUME_KNOWN=<sig>,<sig> (a
+// development aid: search behind a finding before it is listed in known_findings.json) the class is only counted.
+func addKnown(vs *hx.Vs, sig, format string, args ...any) {
+	for _, s := range strings.Split(os.Getenv("VERIF_ASSUME_KNOWN"), ",") {
+		if s == sig {
+			R.Class("assumed-known", sig)
+			return
+		}
+	}
+	vs.Add(sig, format, args...)
+}
+
+// maskedColumnSetting is the setting of a masked column (what the window and the pattern are does not matter
+// for poison detection).
+func maskedColumnSetting() config.ColumnEncryptionSetting {
+	env := config.CryptoEnvelopeTypeAcraBlock
+	reencrypt := true
+	s := &config.BasicColumnEncryptionSetting{Name: "c", CryptoEnvelope: &env, ReEncryptToAcraBlock: &reencrypt, MaskingPattern: "xxxx", PartialPlaintextLenBytes: 2, PlaintextSide: "left"}
+	if err := s.Init(false); err != nil {
+		panic(err)
+	}
+	return s
+}
+
+// maskedChain replicates proxyFactory.New for a deployment with masked columns: the decrypt handler works
+// over the masking processor.
+func maskedChain(ks keystore.ServerKeyStore, callbacks base.PoisonRecordCallbackStorage) *crypto.OldContainerDetectorWrapper {
+	det := crypto.NewEnvelopeDetector()
+	wrapper := crypto.NewOldContainerDetectorWrapper(det)
+	reg := crypto.NewRegistryHandler(ks)
+	if callbacks != nil && callbacks.HasCallbacks() {
+		pd := crypto.NewPoisonRecordsRecognizer(ks, reg)
+		pd.SetPoisonRecordCallbacks(callbacks)
+		det.AddCallback(pd)
+	}
+	proc, err := masking.NewProcessor(reg)
+	if err != nil {
+		panic(err)
+	}
+	det.AddCallback(crypto.NewDecryptHandler(ks, proc))
+	return wrapper
 }
 
 // ---------------------------------------------------------------------------------------------
@@ -640,6 +746,15 @@ func CheckColumn(c ColCase) (vs hx.Vs, nontrivial bool, classes []string) {
 			return fix.NewSearchChain(e.ks, cb).OnColumn(id, in)
 		}},
 	}
+	maskedSetting := maskedColumnSetting()
+	chains = append(chains, chain{"masked-column", func(cb base.PoisonRecordCallbackStorage, id, in []byte) ([]byte, error) {
+		_, out, err := maskedChain(e.ks, cb).OnColumn(encryptor.NewContextWithEncryptionSetting(fix.Ctx(id), maskedSetting), in)
+		return out, err
+	}})
+	overlapped := everyRecordOverlapped(r)
+	if overlapped {
+		classes = append(classes, "record-overlapped-by-envelope-shaped-bytes")
+	}
 	for _, ch := range chains {
 		for _, reader := range [][]byte{alice, carol} {
 			name := ch.name + ":" + map[string]string{"alice": "reader-with-keys", "carol": "reader-without-keys"}[string(reader)]
@@ -666,6 +781,9 @@ func CheckColumn(c ColCase) (vs hx.Vs, nontrivial bool, classes []string) {
 			}
 			// nobody holds the poison keys as client keys: without callbacks the records pass through untouched
 			for _, rec := range r.anyRecords {
+				if ch.name == "masked-column" {
+					break // a masked column shows the pattern instead of anything that cannot be decrypted
+				}
 				if bytes.Contains(r.col, rec) && !bytes.Contains(out0, rec) {
 					vs.Add("record-touched-without-callbacks:"+name, "a poison record (%d bytes) is not delivered as stored when no callbacks are configured", len(rec))
 					break
@@ -676,6 +794,10 @@ func CheckColumn(c ColCase) (vs hx.Vs, nontrivial bool, classes []string) {
 			}
 			switch exp {
 			case expFire:
+				if ch.name == "masked-column" && overlapped && (cb.N < 1 || fcb.n < 1) {
+					addKnown(&vs, "missed:masked-column:record-overlapped-by-envelope-shaped-bytes", "masked column, value of %d bytes: envelope-shaped bytes in front of the poison record (offset %d) claim a length that reaches into it; the masking processor replaces them by the pattern and the record is never looked at: callback ran %d times", len(r.col), r.firstAt, cb.N)
+					continue
+				}
 				if cb.N < 1 {
 					vs.Add("missed:"+name, "value of %d bytes holds an intact poison record of a surviving generation (first at offset %d): callback ran %d times", len(r.col), r.firstAt, cb.N)
 				}
@@ -696,7 +818,7 @@ func CheckColumn(c ColCase) (vs hx.Vs, nontrivial bool, classes []string) {
 }
 
 func TestPoisonColumn(t *testing.T) {
-	R.Rule("TestPoisonColumn", "fresh keystore (v1 directory / v2 in-memory) with clients alice, bobby (keys) and carol (none) and a poison-key history (1-4 generations of the poison key pair and of the poison symmetric key, one poison record of either kind made right after each generation, optionally rotated keys destroyed by listing index); column value = 0-2 fillers (G-bytes, tag runs, bogus container headers, whole or damaged envelopes of alice/bobby in all kinds and forms) || poison record (kind x container/bare x generation; or foreign-keystore / bit-flipped / truncated / field-edited / destroyed-generation record; or only ordinary content; or two records) || 0-2 fillers, run through the replicated column chain and the searchable-column chain under a reader with keys and one without, each with no callbacks, an empty storage, a counting callback and a failing callback. Oracle: value holds an intact record of a surviving generation => callback count >= 1 and the failing callback's error is returned instead of data; otherwise count == 0; data equal to the run without callbacks; records untouched without callbacks. Non-trivial = record at offset > 0 or of a rotated generation, or a silent case holding a well-formed envelope")
+	R.Rule("TestPoisonColumn", "fresh keystore (v1 directory / v2 in-memory) with clients alice, bobby (keys) and carol (none) and a poison-key history (1-4 generations of the poison key pair and of the poison symmetric key, one poison record of either kind made right after each generation, optionally rotated keys destroyed by listing index); column value = 0-2 fillers (G-bytes, tag runs, bogus container headers, whole or damaged envelopes of alice/bobby in all kinds and forms) || poison record (kind x container/bare x generation; or foreign-keystore / bit-flipped / truncated / field-edited / destroyed-generation record; or only ordinary content; or two records) || 0-2 fillers, run through the replicated column chain, the searchable-column chain and the chain of a masked column (decrypt handler over the masking processor) under a reader with keys and one without, each with no callbacks, an empty storage, a counting callback and a failing callback. Oracle: value holds an intact record of a surviving generation => callback count >= 1 and the failing callback's error is returned instead of data; otherwise count == 0; data equal to the run without callbacks; records untouched without callbacks. Non-trivial = record at offset > 0 or of a rotated generation, or a silent case holding a well-formed envelope")
 	hx.Checks(280, 9000)
 	rapid.Check(t, func(rt *rapid.T) {
 		c := ColCase{Hist: genHist(rt), Value: genValue(rt, "v", 4096)}
